@@ -52,6 +52,9 @@ def parse_unit(path):
     return meta
 
 
+_held_locks = []
+
+
 def env_offline(target_dir):
     e = dict(os.environ)
     e["CARGO_NET_OFFLINE"] = "true"
@@ -177,8 +180,26 @@ def run_kani_group(root, plan, names, snap, sd, prop, tier):
     s = open(ct).read()
     s = re.sub(r"members\s*=\s*\[[^\]]*\]", 'members = ["."]', s)
     open(ct, "w").write(s)
-    target_dir = os.environ.get("VERIF_KANI_TARGET", os.path.join(root, ".cache", "kani-target"))
-    os.makedirs(target_dir, exist_ok=True)
+    # shared build cache; two checks running at the same time must not build into the same directory (cargo would interleave
+    # the artefacts of two different source snapshots), so each run takes an exclusive lock on the first free slot
+    base_target = os.environ.get("VERIF_KANI_TARGET", os.path.join(root, ".cache", "kani-target"))
+    target_dir = None
+    import fcntl
+    for slot in range(6):
+        cand = base_target if slot == 0 else f"{base_target}-{slot}"
+        os.makedirs(cand, exist_ok=True)
+        lk = open(os.path.join(cand, ".verif-lock"), "w")
+        try:
+            fcntl.flock(lk, fcntl.LOCK_EX | fcntl.LOCK_NB)
+            target_dir = cand
+            break
+        except OSError:
+            lk.close()
+    if target_dir is None:
+        target_dir = base_target
+        lk = open(os.path.join(target_dir, ".verif-lock"), "w")
+        fcntl.flock(lk, fcntl.LOCK_EX)
+    _held_locks.append(lk)     # released when the process exits
     results = {}
     units = {}
     vgen._index_cache.clear()
